@@ -231,6 +231,10 @@ def _parse_composition(
     default = schema.get("default", NotPassed())
     if isinstance(element, ObjectMeta):
         return AllOf(element, default=default)
+    if isinstance(element, Nothing) and not isinstance(default, NotPassed):
+        # `Nothing` accepts no keywords, so it cannot carry the default
+        # through `repr` or serialization.
+        return AllOf(element, default=default)
     if not isinstance(default, NotPassed):
         element.default = default
     return element
